@@ -329,28 +329,36 @@ def run(ctx):
 
     # ---- 1. design spec, exhaustive ------------------------------------------------------------
     runs = []
-    base = core.cfg_variant(ctx, "C15_base.cfg", "C15_base_run.cfg", {"MaxRecs": 4 if quick else 5})
-    runs.append(ctx.tlc("C15_wal", base, must_pass=True, timeout=2400, workers=8, heap="6g", label="base"))
-    corrupt = core.cfg_variant(ctx, "C15_corrupt.cfg", "C15_corrupt_run.cfg", {"MaxRecs": 3 if quick else 4})
-    runs.append(ctx.tlc("C15_wal", corrupt, must_pass=True, timeout=2400, workers=8, heap="6g", label="corrupt"))
-    spill = core.cfg_variant(ctx, "C15_spill.cfg", "C15_spill_run.cfg", {"MaxRecs": 4 if quick else 5})
-    runs.append(ctx.tlc("C15_wal", spill, must_pass=True, timeout=2400, workers=8, heap="6g", label="spill"))
-    prune = core.cfg_variant(ctx, "C15_prune.cfg", "C15_prune_run.cfg", {"MaxRecs": 6 if quick else 8})
-    runs.append(ctx.tlc("C15_wal", prune, must_pass=True, timeout=2400, workers=8, heap="6g", label="prune"))
+    sizes = {"base": 4, "corrupt": 3, "spill": 4, "prune": 5} if quick else {"base": 5, "corrupt": 4, "spill": 5, "prune": 6}
+    for tag in ("base", "corrupt", "spill", "prune"):
+        c = core.cfg_variant(ctx, "C15_%s.cfg" % tag, "C15_%s_run.cfg" % tag, {"MaxRecs": sizes[tag]})
+        runs.append(ctx.tlc("C15_wal", c, must_pass=True, timeout=3000, workers=8, heap="6g", label=tag))
+    if not quick:
+        c = core.cfg_variant(ctx, "C15_base.cfg", "C15_stop_run.cfg", {"MaxRecs": 4, "MaxStop": 1, "MaxCrash": 1})
+        runs.append(ctx.tlc("C15_wal", c, must_pass=True, timeout=3000, workers=8, heap="6g", label="stop"))
+        c = core.cfg_variant(ctx, "C15_prune.cfg", "C15_prunecrash_run.cfg", {"MaxRecs": 5, "MaxCrash": 1})
+        runs.append(ctx.tlc("C15_wal", c, must_pass=True, timeout=3000, workers=8, heap="6g", label="prune+crash"))
 
     # ---- 2. non-vacuity: every weakened spec must be refuted -------------------------------------
     nonvac = {}
-    for sw, (cfgname, invs) in WEAK.items():
-        r = ctx.tlc("C15_wal", cfgname, timeout=900, workers=4, label="weak_" + sw)
+    from concurrent.futures import ThreadPoolExecutor
+
+    def weak(item):
+        sw, (cfgname, invs) = item
+        r = ctx.tlc("C15_wal", cfgname, timeout=900, workers=2, heap="2g", label="weak_" + sw)
         hit = [v["name"] for v in r.violations if v["name"] in invs]
         if r.errors or r.timed_out or not hit:
             ctx.save_log("weak_" + sw, r.out)
             raise Undecided("vacuity: weakened spec Weak_%s is not refuted by TLC (violations: %s, errors: %s)" % (
                 sw, [v["name"] for v in r.violations], r.errors[:1]))
-        nonvac["Weak_%s refuted by" % sw] = hit[0]
+        return sw, hit[0]
+
+    with ThreadPoolExecutor(max_workers=4) as ex:
+        for sw, inv in ex.map(weak, WEAK.items()):
+            nonvac["Weak_%s refuted by" % sw] = inv
 
     # ---- 3. behaviours of the spec -> schedules ----------------------------------------------------
-    nsim = 150 if quick else 1500
+    nsim = 100 if quick else 1200
     simdir = ctx.subdir("sim")
     scheds = []
     for tag, cfgname in (("base", "C15_sim.cfg"), ("corrupt", "C15_sim_corrupt.cfg")):
@@ -364,8 +372,8 @@ def run(ctx):
     for i, s in enumerate(scheds):
         s["name"] = "tlc-%d" % i
     lib = library(quick)
-    inp = {"scheds": lib + scheds, "enums": enums(quick), "random": 60 if quick else 1500,
-           "node": {"runs": 6 if quick else 60, "steps": 14 if quick else 30, "headLimit": 0}}
+    inp = {"scheds": lib + scheds, "enums": enums(quick), "random": 40 if quick else 1000,
+           "node": {"runs": 5 if quick else 40, "steps": 12 if quick else 24, "headLimit": 0, "offsets": 3 if quick else 0}}
 
     # ---- 4. the real code ---------------------------------------------------------------------------
     rows_wal, rows_node, fsinfo = execute(ctx, inp)
@@ -377,7 +385,7 @@ def run(ctx):
     # ---- 6. verdict -----------------------------------------------------------------------------------
     verdict = core.Verdict(ctx)
     for v in v1["viol"] + v2["viol"]:
-        add_violation(verdict, v)
+        add_violation(verdict, v, {"seed": ctx.seed, "node": inp["node"]})
     drift = v1["drift"] + v2["drift"]
 
     distinct = set()
@@ -437,7 +445,8 @@ def run_dev(ctx):
     sel = os.environ["VERIF_C15_DEV"].split(",")
     inp = {"scheds": library(True) if "lib" in sel else [], "enums": [e for e in enums(True) if e["name"] in sel],
            "random": 20 if "random" in sel else 0,
-           "node": {"runs": 3 if "node" in sel else 0, "steps": 10, "headLimit": 0}}
+           "node": {"runs": int(os.environ.get("VERIF_C15_NODERUNS", "3")) if "node" in sel else 0,
+                    "steps": int(os.environ.get("VERIF_C15_NODESTEPS", "10")), "headLimit": 0, "offsets": 3}}
     rows_wal, rows_node, fsinfo = execute(ctx, inp)
     log("fsync observation: %s" % fsinfo)
     verdict = core.Verdict(ctx)
@@ -460,10 +469,12 @@ def run_dev(ctx):
     return verdict.finish()
 
 
-def add_violation(verdict, v):
+def add_violation(verdict, v, extra=None):
     row = v["row"]
     sig = {"inv": v["inv"], "class": re.sub(r'\d+', 'N', v["class"]), "ev": row["ev"]}
-    verdict.add(sig, {"failing_step": slim(row), "prefix": v["prefix"], "tlc": {"inv": v["inv"], "class": v["class"]}})
+    payload = {"failing_step": slim(row), "prefix": [slim(r) for r in v["prefix"]], "tlc": {"inv": v["inv"], "class": v["class"]}}
+    payload.update(extra or {})
+    verdict.add(sig, payload)
 
 
 def abstract_post(p):
@@ -541,7 +552,9 @@ def replay(ctx, path):
     if not prefix or prefix[0].get("ev") != "Reset":
         raise Undecided("replay file has no run prefix")
     if any(r.get("ev") == "NodeState" for r in prefix):
-        inp = {"scheds": [], "enums": [], "random": 0, "node": {"runs": 6, "steps": 14, "headLimit": 0}}
+        # a node-level run is a seeded walk of a real consensus.State: re-run the set it came from
+        ctx.seed = int(rep["replay"].get("seed", ctx.seed))
+        inp = {"scheds": [], "enums": [], "random": 0, "node": rep["replay"].get("node", {"runs": 6, "steps": 14, "headLimit": 0})}
     else:
         steps = []
         for r in prefix[1:]:
